@@ -317,6 +317,19 @@ func dir1Reads(r *lib.Run, rng *rand.Rand, srv *lib.Server, c cfg, phase string,
 		maxOffsets = 5
 	}
 	offs := offsetsFor(rng, len(f.data), f.chunk, maxOffsets)
+	// Offsets repeated through the servers. A handler panic in the
+	// in-process gRPC server would take the check process down, so every
+	// (offset, form) sent over gRPC is first probed through the disk API on
+	// this goroutine (where a panic is caught and reported) and skipped if
+	// that panicked.
+	srvOffs := []int64{0}
+	inSrv := map[int64]bool{0: true}
+	for _, off := range offs {
+		if off > 0 && len(srvOffs) < 4 && (offsetClass(off, len(f.data), f.chunk) != "inside" || rng.IntN(3) == 0) {
+			srvOffs = append(srvOffs, off)
+			inSrv[off] = true
+		}
+	}
 	panicked := map[int64]bool{}
 	judge("api-get-unknown-size", apiGet(srv.Cache, "cas", f.hash, -1, 0, false, false), f.data, nil)
 	for i, off := range offs {
@@ -333,7 +346,7 @@ func dir1Reads(r *lib.Run, rng *rand.Rand, srv *lib.Server, c cfg, phase string,
 		if judge(path, o, f.data[off:], ex) {
 			r.Count(sect + ".offset." + oc)
 		}
-		if off == 0 || i%2 == 0 {
+		if inSrv[off] || i%2 == 0 {
 			o := apiGet(srv.Cache, "cas", f.hash, n, off, true, i%4 == 0)
 			if o.panic != "" {
 				panicked[off] = true
@@ -347,22 +360,15 @@ func dir1Reads(r *lib.Run, rng *rand.Rand, srv *lib.Server, c cfg, phase string,
 	}
 
 	// --- server read paths ----------------------------------------------
-	// (a handler panic in the in-process gRPC server would take the check
-	// process down; offsets whose direct call panicked are already reported
-	// and are not repeated over gRPC)
 	ctx, cancel := lib.Ctx()
 	defer cancel()
-
-	srvOffs := []int64{0}
-	for _, off := range offs {
-		if off > 0 && len(srvOffs) < 4 && !panicked[off] && (offsetClass(off, len(f.data), f.chunk) != "inside" || rng.IntN(3) == 0) {
-			srvOffs = append(srvOffs, off)
-		}
-	}
 	if panicked[0] {
 		return
 	}
 	for i, off := range srvOffs {
+		if panicked[off] {
+			continue
+		}
 		ex := map[string]any{"offset": off}
 		b, err := srv.BSRead(ctx, lib.ResBlobs(f.hash, n), off, 0)
 		o := readOut{data: b, size: n, found: true}
@@ -380,7 +386,7 @@ func dir1Reads(r *lib.Run, rng *rand.Rand, srv *lib.Server, c cfg, phase string,
 			o := readOut{size: n, found: true}
 			if err != nil {
 				o.err = err.Error()
-			} else if dec, derr := lib.ZstdDecodeBoth(zb); derr != nil {
+			} else if dec, derr := decodeBoth(zb, len(f.data)); derr != nil {
 				o.err = "returned stream is not legal zstd: " + derr.Error()
 			} else {
 				o.data = dec
@@ -393,16 +399,16 @@ func dir1Reads(r *lib.Run, rng *rand.Rand, srv *lib.Server, c cfg, phase string,
 		}
 	}
 	if n > 10 {
-		// bounded read
-		off := rng.Int64N(n - 5)
+		// bounded read (read_limit = exactly what remains) at a probed offset
+		off := srvOffs[rng.IntN(len(srvOffs))]
 		lim := n - off
-		b, err := srv.BSRead(ctx, lib.ResBlobs(f.hash, n), off, lim)
-		// The server answers OutOfRange when more than read_limit bytes remain
-		// (its documented behaviour); only a successful answer is judged.
-		if err == nil {
-			judge("bs-read-limit", readOut{data: b, size: n, found: true}, f.data[off:], map[string]any{"offset": off, "limit": lim})
-		} else {
-			r.Count(sect + ".bs-read-limit.refused")
+		if !panicked[off] {
+			b, err := srv.BSRead(ctx, lib.ResBlobs(f.hash, n), off, lim)
+			if err == nil {
+				judge("bs-read-limit", readOut{data: b, size: n, found: true}, f.data[off:], map[string]any{"offset": off, "limit": lim})
+			} else {
+				r.Count(sect + ".bs-read-limit.refused")
+			}
 		}
 	}
 
@@ -433,7 +439,7 @@ func dir1Reads(r *lib.Run, rng *rand.Rand, srv *lib.Server, c cfg, phase string,
 		o.err = "body: " + gz.BodyErr.Error()
 	case gz.Status == 200:
 		if gz.Header.Get("Content-Encoding") == "zstd" {
-			dec, derr := lib.ZstdDecodeBoth(gz.Body)
+			dec, derr := decodeBoth(gz.Body, len(f.data))
 			if derr != nil {
 				o.err = "returned stream is not legal zstd: " + derr.Error()
 			}
@@ -475,7 +481,7 @@ func dir1Reads(r *lib.Run, rng *rand.Rand, srv *lib.Server, c cfg, phase string,
 			case resp.Responses[0].GetStatus().GetCode() != 0:
 				o.err = fmt.Sprintf("status %d %s", resp.Responses[0].GetStatus().GetCode(), resp.Responses[0].GetStatus().GetMessage())
 			case resp.Responses[0].Compressor == pb.Compressor_ZSTD:
-				dec, derr := lib.ZstdDecodeBoth(resp.Responses[0].Data)
+				dec, derr := decodeBoth(resp.Responses[0].Data, len(f.data))
 				if derr != nil {
 					o.err = "returned data is not legal zstd: " + derr.Error()
 				}
